@@ -38,6 +38,8 @@ impl Kaufman {
 		// documented smoothing constants: fastest = 2 / (period2 + 1), slowest = 2 / (period3 + 1); KAMA starts at the source price
 		r is Ok ==> r->Ok_0.fastest@ * ((self.period2 as real) + 1real) == 2real && r->Ok_0.slowest@ * ((self.period3 as real) + 1real) == 2real,
 		r is Ok ==> r->Ok_0.prev_value@ == src_val(candle, self.source) && r->Ok_0.last_signal is None,
+		// C08: the constant state for the candle's source price (kama_const_step)
+		r is Ok ==> r->Ok_0.const_state(src_val(candle, self.source)),
 //@hint before Ok(Self::Instance
 	proof {
 		let (n2, n3) = ((cfg.period2 as real) + 1real, (cfg.period3 as real) + 1real);
@@ -95,6 +97,22 @@ impl KaufmanInstance {
 		else { assert(kama_filtered(old(self), *src, self, r.vals()[0], r.sigs()[0], cross)); }
 	}
 //@end
+}
+
+// ---- C08 at indicator level: Kaufman on a repeated candle: KAMA stays at the source price (whatever the smoothing), no crossing, no signal
+impl KaufmanInstance {
+	pub open spec fn const_state(&self, s: real) -> bool { self.inv() && self.prev_value@ == s && self.cross.up.last_delta@ == 0real && (self.cfg.filter_period > 1 ==> self.last_signal is None) }
+}
+pub proof fn kama_const_step(pre: &KaufmanInstance, src: ValueType, post: &KaufmanInstance, value: ValueType, sig: Action, ch: ValueType, vol: ValueType, c: Action)
+	requires pre.const_state(src@), post.inv(), post.cfg == pre.cfg, kama_value(pre, src, post, value, ch, vol),
+		pre.cfg.filter_period <= 1 ==> Cross::step(&pre.cross, &(src, value), &post.cross, &sig),
+		pre.cfg.filter_period > 1 ==> kama_filtered(pre, src, post, value, sig, c)
+	ensures value@ == src@, sig is None, post.const_state(src@)
+{
+	let er = if vol@ == 0real { 0real } else { rabs(ch@) / vol@ };
+	let sm0 = er * (pre.fastest@ - pre.slowest@) + pre.slowest@;
+	let sm = if pre.cfg.square_smooth { sm0 * sm0 } else { sm0 };
+	assert(sm * (src@ - src@) == 0real) by(nonlinear_arith);
 }
 } // verus!
 fn main() {}
